@@ -19,6 +19,7 @@ import random
 
 from ..core import Machinery, run_tlc, validate_trace
 from .. import fx_optimizer as fx
+from .. import fx_paramframe
 
 CLAUSES = ('unknown_is_error', 'known_is_accepted', 'views_readable', 'fit_names', 'fit_values',
            'fit_boundaries', 'fit_priors', 'derived_names', 'values', 'other_parameters_untouched')
@@ -327,6 +328,9 @@ def run(ctx):
         run_traces(ctx, 150, 25)
     else:
         run_traces(ctx, 1500, 30)
+    # ---- the frame rule on the registries of models built from every component family (spec/ParamFrame.tla)
+    n = fx_paramframe.run_paramframe(ctx, 3 if q else 12)
+    ctx.note('registry walks (ParamFrame): %d traces over %d scenarios' % (n, len(fx_paramframe.scenarios(ctx.tier))))
 
 
 def replay(ctx, violations):
@@ -336,3 +340,5 @@ def replay(ctx, violations):
             replay_behaviour(ctx, vec['hist'], 'replay')
         elif vec.get('kind') == 'trace':
             replay_trace_events(ctx, vec['events'])
+        elif 'paramframe' in vec:
+            fx_paramframe.replay_vector(ctx, v)
